@@ -8,6 +8,7 @@ A *script* is a list of ops (all times in ticks of 62.5 ms):
     ["connect", a]             a new HAPServerProtocol gets connection_made (peer address #a)
     ["verify", p]              connection #p holds a verified session (handler.is_encrypted)
     ["put", p, x, ev, val, close]   PUT /characteristics for characteristic #x fed to data_received
+                               (the "ev" member is spelled true/false by ops at even script positions, 1/0 at odd ones)
     ["putm", p, [[x, ev, val], ...], close]   ONE PUT /characteristics with several queries (scene write)
     ["get", p, x]              GET /characteristics?id=<aid>.<iid> of characteristic #x
     ["world", "bridge"]        (configuration, right after the first advance) the accessory is a Bridge with two
@@ -370,7 +371,9 @@ class World:
     def _query(self, x, ev, val):
         q = {"aid": self.ids[x][0], "iid": self.ids[x][1]}
         if ev is not None:
-            q["ev"] = bool(ev)
+            # HAP allows booleans spelled true / false / 1 / 0: requests sent by ops at odd script positions
+            # use the numeric spelling (the script, the model and the oracle only know "subscribe" / "unsubscribe")
+            q["ev"] = (1 if ev else 0) if self.op_index % 2 else bool(ev)
         if val is not None:
             q["value"] = self.enc(x, val)
         return q
